@@ -103,10 +103,17 @@ def f4_matches(cfg, observed_base):
         return False
     ob = float(observed_base)
     root = true_base(mc, nr, um)
-    # the iteration is ill-conditioned when no root > 1 exists (base - 1 ~ 1e-7): libm/LLVM pow may differ by ulps
-    tol = (1e-3 if root is None else 1e-8) * abs(model_base - 1.0) + 1e-15
-    if not abs(ob - model_base) <= tol:
-        return False  # the sketch's base is not what the known-defective iteration produces
+    # "the sketch's base is what the known-defective iteration produces": bases agree to 1e-8 of (base - 1); when the base is
+    # within ~1e-6 of 1 the iteration amplifies rounding (libm vs LLVM pow differ by ulps; seen: 17 ulp at base - 1 = 2.5e-8),
+    # so there the two bases must agree to 1e-3 of (base - 1) *and* decode the ceiling to the same value (rel 1e-7)
+    close = abs(ob - model_base) <= 1e-8 * abs(model_base - 1.0) + 1e-15
+    if not close and abs(model_base - 1.0) < 1e-5 and abs(ob - model_base) <= 1e-3 * abs(model_base - 1.0):
+        try:
+            close = abs(decoded_ceiling(ob, nr, um) - decoded_ceiling(model_base, nr, um)) <= 1e-7 * abs(decoded_ceiling(model_base, nr, um))
+        except (OverflowError, ZeroDivisionError):
+            close = False
+    if not close:
+        return False  # not explained by the known-defective mechanism
     if root is None:
         return True  # unsolvable configuration accepted by the defective acceptance test
     try:
